@@ -82,6 +82,38 @@ def _is_constant_expr(prog: Program, mod: Module, e: ast.AST) -> bool:
     return False
 
 
+def _is_constant_table(prog: Program, mod: Module, e: ast.AST) -> bool:
+    """a literal dict / list / set / tuple of constants (a lookup table)."""
+    if isinstance(e, ast.Dict):
+        return all(k is not None and _is_constant_expr(prog, mod, k) and (_is_constant_expr(prog, mod, v) or _is_constant_table(prog, mod, v)) for k, v in zip(e.keys, e.values))
+    if isinstance(e, (ast.List, ast.Set, ast.Tuple)):
+        return all(_is_constant_expr(prog, mod, x) or _is_constant_table(prog, mod, x) for x in e.elts)
+    return False
+
+
+def _never_mutated(prog: Program, mod: Module, name: str) -> bool:
+    """no statement of the package stores into / calls a mutating method on / rebinds the module-level table `name`."""
+    muts = ("append", "extend", "insert", "remove", "pop", "clear", "update", "add", "discard", "setdefault", "sort", "reverse", "popitem")
+    for m in prog.modules.values():
+        local = name if m is mod else None
+        if m is not mod:
+            imp = [k for k, (tm, sym) in m.imports.items() if tm == mod.name and sym == name]
+            local = imp[0] if imp else None
+        for node in ast.walk(m.tree):
+            if local is not None:
+                if isinstance(node, ast.Subscript) and isinstance(node.ctx, (ast.Store, ast.Del)) and isinstance(node.value, ast.Name) and node.value.id == local:
+                    return False
+                if isinstance(node, ast.Call) and isinstance(node.func, ast.Attribute) and node.func.attr in muts and isinstance(node.func.value, ast.Name) and node.func.value.id == local:
+                    return False
+                if isinstance(node, ast.AugAssign) and isinstance(node.target, ast.Name) and node.target.id == local:
+                    return False
+                if isinstance(node, ast.Global) and local in node.names:
+                    return False
+            if isinstance(node, ast.Attribute) and node.attr == name and isinstance(node.ctx, (ast.Store, ast.Del)):
+                return False
+    return True
+
+
 def run(prog: Program, rep, tier: str) -> None:
     rep.explanation = EXPLANATION
     rep.assumptions += ["numpy / scipy kernels are deterministic", "the caller's Problem is itself stateless or caches safely (C11 covers what the library does to it)"]
@@ -101,7 +133,7 @@ def run(prog: Program, rep, tier: str) -> None:
                 n_bind += 1
                 if t.id == "__all__":
                     continue
-                ok = _is_constant_expr(prog, mod, v)
+                ok = _is_constant_expr(prog, mod, v) or (_is_constant_table(prog, mod, v) and _never_mutated(prog, mod, t.id))
                 why = ALLOWED_MODULE_STATE.get((mod.name, t.id))
                 rep.check(ok or why is not None, "module-state", mod.name, U(st).splitlines()[0][:100],
                           f"module-level `{t.id}` is a constant / logger / function object" + (f" (listed exception: {why})" if why else ""), f"{mod.relpath}:{st.lineno}")
